@@ -20,4 +20,11 @@ def jobs(tier, ctx):
             if j:
                 j['opt_witness'] = j['opt_witness'] + ['index_in_range', 'index_out_of_range']
                 out.append(j)
+        # arrays: typed blocks (DESIGN corrections 14), concrete length per run; index classes covering all of int64 (each in-range position concrete, the two out-of-range sides symbolic)
+        for ln in ((2,) if tier == 'quick' else (0, 1, 2, 3)):
+            for (tag, d) in vm.index_classes(ln, rev):
+                j = vm.step_job(ctx, 'indexref', op, ['NUM', 'ARRM'], oracle=['INDEXREF'], extra_defs=['LENK1=%d' % ln, 'INDEXREF_REVERSE=%d' % rev] + d, tag='len%d.%s' % (ln, tag), typed_arrays=8, mem=(4 if tag.startswith('pos') else 11))
+                if j:
+                    j['opt_witness'] = j['opt_witness'] + ['index_in_range', 'index_out_of_range']
+                    out.append(j)
     return out
